@@ -15,6 +15,7 @@ import ALV.Lemmas.C07Calc
 import ALV.Lemmas.C07Lagrange
 import ALV.Lemmas.C07Hash
 import ALV.Lemmas.C07Spec
+import ALV.Lemmas.C07LagrangePoly
 import ALV.Common.Audit
 
 set_option linter.unusedSectionVars false
@@ -208,16 +209,37 @@ theorem toLaurent_compose {p : MPoly K} (hp : IsPoly p) (q : MPoly K) :
     toLaurent (compose p q) = (p.map fun kc => C kc.2 * toLaurent q ^ kc.1.toNat).sum :=
   toLaurent_compose_poly hp q
 
-/-- **C07.4g** composition commutes with evaluation: `p(q)(v) = p(q(v))`. -/
-theorem call_compose_partial {p : MPoly K} (hp : IsPoly p) (hpw : WF p) (q : MPoly K) {v : K} (hv : v ≠ 0)
-    (h h' h'' : Horner) : call (compose p q) v h = call p (call q v h') h'' := by
-  rw [call_eq_ev (Or.inl hv), call_eq_ev (Or.inl hv), call_eq_ev (Or.inr hpw.1),
-    ev_compose_of_ne_zero hp q hv]
+/-- **C07.4g** composition commutes with evaluation: `p(q)(v) = p(q(v))` for a polynomial `p`,
+at `v ≠ 0` for any Laurent `q`, and at every `v` (the `x = 0` shortcut included) for a polynomial `q`;
+all scheme choices. -/
+theorem call_compose {p q : MPoly K} (hp : IsPoly p) (hpw : WF p) {v : K}
+    (hv : v ≠ 0 ∨ (IsPoly q ∧ WF q)) (h h' h'' : Horner) :
+    call (compose p q) v h = call p (call q v h') h'' := by
+  rcases hv with hv | hv
+  · rw [call_eq_ev (Or.inl hv), call_eq_ev (Or.inl hv), call_eq_ev (Or.inr hpw.1),
+      ev_compose_of_ne_zero hp q hv]
+  · exact call_compose_of_isPoly hp hpw.1 hv.1 hv.2.1 v h h' h''
 
--- PENDING: the same at `v = 0` for a polynomial `q` (the tie covers it: law `comp_eval`)
-def call_compose_at_zero : Prop :=
-  ∀ (p q : MPoly K), IsPoly p → WF p → IsPoly q → WF q → ∀ h h' h'' : Horner,
-    call (compose p q) 0 h = call p (call q 0 h') h''
+/-- **C07.4h** `p / c` and `p / (w·x^d)` are the quotients in the Laurent ring (division by a unit). -/
+theorem toLaurent_truediv {p r : MPoly K} (hp : WF p) {c w : K} {d : ℤ} :
+    (divScalar p c = .ok r → toLaurent r = toLaurent p * C c⁻¹) ∧
+    (divPoly p [(d, w)] = .ok r → toLaurent r = toLaurent p * AddMonoidAlgebra.single (-d) w⁻¹) :=
+  ⟨toLaurent_divScalar hp.1, toLaurent_divPoly hp.1⟩
+
+/-- which exceptions `/` raises -/
+theorem truediv_errors (p q : MPoly K) (c : K) :
+    (divScalar p c = .error .zeroDivision ↔ (p ≠ [] ∧ c = 0)) ∧
+    (divPoly p [] = .error .zeroDivision) ∧
+    (2 ≤ q.length → divPoly p q = .error .notImplemented) := by
+  refine ⟨?_, rfl, ?_⟩
+  · unfold divScalar
+    cases p with
+    | nil => simp
+    | cons a t =>
+      by_cases hc : c = 0 <;> simp [hc]
+  · intro h
+    match q, h with
+    | a :: b :: t, _ => rfl
 
 /-! ## 3. calculus -/
 
@@ -290,11 +312,27 @@ theorem lagrange_single_point_raises (x y v : K) :
     lagrangeFunc [(x, y)] v = .error .type ∧ lagrangePoly [(x, y)] = .error .type :=
   ⟨lagrangeGen_single_point _ _ _ _ _, lagrangeGen_single_point _ _ _ _ _⟩
 
--- PENDING: `lagrange.poly` passes through its points (tie: entry "lagrange", observable poly.at)
-def lagrange_poly_interp : Prop :=
-  ∀ (pairs : List (K × K)), (pairs.map (·.1)).Nodup → 2 ≤ pairs.length →
-    ∀ xi yi, (xi, yi) ∈ pairs → ∀ h : Horner,
-      (lagrangePoly pairs).map (fun p => call p xi h) = .ok yi
+/-- **C07.6d** `lagrange.poly(pairs)` — the lambda of `lagrange.func` run on the Poly `x` — exists,
+is well formed, and evaluates (every scheme, every point, `0` included) to the same value as
+`lagrange.func(pairs)`. -/
+theorem lagrange_poly_eq_func {pairs : List (K × K)} (hd : (pairs.map (·.1)).Nodup)
+    (h2 : 2 ≤ pairs.length) (v : K) (h : Horner) :
+    (lagrangePoly pairs).map (fun P => call P v h) = lagrangeFunc pairs v := by
+  have hne : pairs ≠ [] := by intro e; subst e; simp at h2
+  rw [lagrangePoly_call false hne (Or.inr ⟨hd, h2⟩), lagrangeFunc_eq_lagSum false v hne (Or.inr ⟨hd, h2⟩)]
+
+/-- **C07.6e** `lagrange.poly(pairs)` passes through its points. -/
+theorem lagrange_poly_interp {pairs : List (K × K)} (hd : (pairs.map (·.1)).Nodup)
+    (h2 : 2 ≤ pairs.length) {xi yi : K} (hm : (xi, yi) ∈ pairs) (h : Horner) :
+    (lagrangePoly pairs).map (fun P => call P xi h) = .ok yi := by
+  rw [lagrange_poly_eq_func hd h2, lagrange_func_interp hd h2 hm]
+
+/-- with the repair, also for a single point -/
+theorem lagrange_poly_fixed_interp {pairs : List (K × K)} (hd : (pairs.map (·.1)).Nodup)
+    {xi yi : K} (hm : (xi, yi) ∈ pairs) (h : Horner) :
+    (lagrangePoly pairs true).map (fun P => call P xi h) = .ok yi := by
+  have hne : pairs ≠ [] := by intro e; subst e; simp at hm
+  rw [lagrangePoly_call true hne (Or.inl rfl), lagSum_at_node hd hm]
 
 /-! ## 5. comparison and hashing -/
 
@@ -398,12 +436,20 @@ example : call (mul q0 r0) 0 .auto = call q0 0 .auto * call r0 0 .auto :=
   call_mul wq wr (Or.inr ⟨(isPoly_iff _).1 (by decide +kernel), (isPoly_iff _).1 (by decide +kernel)⟩) _
 example : call (add p0 q0) 2 .no = call p0 2 .no + call q0 2 .no := call_add wp wq _ _
 example : call (compose q0 p0) 2 .auto = call q0 (call p0 2 .yes) .no :=
-  call_compose_partial ((isPoly_iff _).1 (by decide +kernel)) wq p0 (by norm_num) _ _ _
+  call_compose ((isPoly_iff _).1 (by decide +kernel)) wq (Or.inl (by norm_num)) _ _ _
 example : eq (diff (mul p0 q0)) (add (mul (diff p0) q0) (mul p0 (diff q0))) = true := diff_mul wp wq
 example : eq (diff [(1, 1), (2, -1 / 2)]) q0 = true :=
   diff_integrate wq (show integrate q0 = .ok [(1, 1), (2, -1 / 2)] by decide +kernel)
 example : lagrangeFunc [((1 : ℚ), 5), (2, 7), (4, 1 / 3)] 4 = .ok (1 / 3) :=
   lagrange_func_interp (by decide +kernel) (by decide) (by simp)
+example : call (compose q0 r0) 0 .auto = call q0 (call r0 0 .yes) .no :=
+  call_compose ((isPoly_iff _).1 (by decide +kernel)) wq
+    (Or.inr ⟨(isPoly_iff _).1 (by decide +kernel), wr⟩) _ _ _
+example : (lagrangePoly [((1 : ℚ), 5), (2, 7), (4, 1 / 3)]).map (fun P => call P 4 .auto) = .ok (1 / 3) :=
+  lagrange_poly_interp (by decide +kernel) (by decide) (by simp) _
+example : lagrangePoly [((1 : ℚ), 5), (2, 7), (4, 1 / 3)] = .ok [(2, -16 / 9), (1, 22 / 3), (0, -5 / 9)] := by
+  decide +kernel
+example : divPoly p0 [(1, 2)] = .ok [(-2, 1 / 4), (1, 3 / 2)] := by decide +kernel
 example : hashKey (add p0 q0) = hashKey (add q0 p0) := (eq_hash (wf_add _ _) (wf_add _ _)).1 (add_comm wp wq)
 example : sortAsc (mul p0 q0) = sMul p0 q0 := mul_eq_spec p0 q0
 
